@@ -77,16 +77,26 @@ def nearest(env, ns, dconv, qconv):
     _nearest_claims(env, ds, slon, slat, ns, qconv)
 
 
-def _nearest_claims(env, ds, slon, slat, ns, qconv, note=""):
+def _nearest_claims(env, ds, slon, slat, ns, qconv, note="", reuse=False):
     qlon, qlat = _lon(env, "qlon", qconv), env.real("qlat", lo=-90.0, hi=90.0)
     if qconv == 180:
         env.assume(qlon < 0)
     tol = env.real("tol", lo=0.0, hi=5.0)
+    qa, la = [qlon], [qlat]
+    if reuse:
+        # the caller keeps its query in two arrays and uses them for two selections in a row
+        dt = object if env.sym else float
+        qa, la = np.array([qlon], dtype=dt), np.array([qlat], dtype=dt)
+        try:
+            with env.lazy_sqrt():
+                ds.spec.sel(qa, la, method="nearest", tolerance=1000.0)
+        except (ValueError, AssertionError):
+            pass
     d2 = [_d2(slon[k], slat[k], qlon, qlat) for k in range(ns)]
     within = [d2[k] <= tol * tol for k in range(ns)]
     try:
         with env.lazy_sqrt():
-            out = ds.spec.sel([qlon], [qlat], method="nearest", tolerance=tol)
+            out = ds.spec.sel(qa, la, method="nearest", tolerance=tol)
     except AssertionError:
         env.claim(AND(*[NOT(w) for w in within]), note + "nearest fails only when no station is within the tolerance")
         return
@@ -102,22 +112,24 @@ def _nearest_claims(env, ds, slon, slat, ns, qconv, note=""):
     env.claim(AND(_lon_ok(env, glon, slon[k], qconv), near(env, glat, slat[k], rel=0.0, abs_=0.0)), note + "coordinates of the returned station, longitude in the query's convention")
 
 
-@harness(P, quick=[dict(ns=2, dconv=360, first="bbox", fconv=180, qconv=360), dict(ns=2, dconv=180, first="bbox", fconv=360, qconv=180), dict(ns=2, dconv=360, first="nearest", fconv=180, qconv=360)],
-         thorough=grid(ns=[2, 3], dconv=[360, 180], first=["bbox", "nearest"], fconv=[360, 180], qconv=[360, 180]), max_paths=4000, time_budget=300, hard_timeout=600, time_budget_thorough=1800, hard_timeout_thorough=2100)
+@harness(P, quick=[dict(ns=2, dconv=360, first="bbox", fconv=180, qconv=360), dict(ns=2, dconv=180, first="bbox", fconv=360, qconv=180), dict(ns=2, dconv=360, first="nearest", fconv=180, qconv=360), dict(ns=2, dconv=180, first="same_query", fconv=360, qconv=360)],
+         thorough=grid(ns=[2, 3], dconv=[360, 180], first=["bbox", "nearest"], fconv=[360, 180], qconv=[360, 180]) + grid(ns=[2], dconv=[360, 180], first=["same_query"], fconv=[360], qconv=[360, 180]), max_paths=4000, time_budget=300, hard_timeout=600, time_budget_thorough=1800, hard_timeout_thorough=2100)
 def nearest_after(env, ns, dconv, first, fconv, qconv):
     """the same claims as `nearest` for a selection made AFTER an earlier selection on the same dataset object
     (a fixed box over part of the globe, or a fixed nearest query with a tolerance that accepts everything) in convention `fconv`:
     what one query reports must not depend on the queries before it."""
     ds, slon, slat = _dset(env, ns, dconv)
     try:
-        if first == "bbox":
+        if first == "same_query":
+            pass    # the earlier selection is made by _nearest_claims with the very arrays of the second one
+        elif first == "bbox":
             box = ([-60.0, -1.0] if fconv == 180 else [181.0, 300.0])   # part of the globe: selects a subset of the stations
             ds.spec.sel(box, [-89.0, 89.0], method="bbox", tolerance=1.0)
         else:
             ds.spec.sel([-20.0 if fconv == 180 else 340.0], [0.0], method="nearest", tolerance=1000.0)
     except (ValueError, AssertionError):
         pass
-    _nearest_claims(env, ds, slon, slat, ns, qconv, note="after an earlier selection: ")
+    _nearest_claims(env, ds, slon, slat, ns, qconv, note="after an earlier selection: ", reuse=(first == "same_query"))
 
 
 def _conv(x, conv):
